@@ -526,6 +526,11 @@ func vC26Re(t byte) {
 	case Publish:
 		vAssume(pk.FixedHeader.Qos == 0 || pk.PacketID != 0)
 		vAssume(!pk.Properties.TopicAliasFlag || pk.Properties.TopicAlias != 0)
+		// a Response Topic with wildcard characters is a protocol error [MQTT-3.3.2-14], not a well-formed packet
+		// (the encoder deliberately leaves such a property out)
+		for i := 0; i < len(pk.Properties.ResponseTopic); i++ {
+			vAssume(pk.Properties.ResponseTopic[i] != '+' && pk.Properties.ResponseTopic[i] != '#')
+		}
 		for _, id := range pk.Properties.SubscriptionIdentifier {
 			vAssume(id != 0) // a subscription identifier of 0 is a protocol error, not a well-formed packet
 		}
